@@ -56,9 +56,42 @@ def show(z):
     return to_coq(z).replace("%string", "")
 
 
+class Raised:
+    """the result of a lattice operation that raised: equal to nothing, below nothing"""
+    def __init__(self, e): self.e = type(e).__name__
+    def __eq__(self, o): return False
+    def __hash__(self): return 0
+    def is_subseteq(self, o): return False
+    def join(self, o): return self
+    def meet(self, o): return self
+
+
+def J(a, b):
+    try:
+        return a.join(b)
+    except Exception as e:
+        return Raised(e)
+
+
+def M(a, b):
+    try:
+        return a.meet(b)
+    except Exception as e:
+        return Raised(e)
+
+
+def LE(a, b):
+    try:
+        return bool(a.is_subseteq(b))
+    except Exception:
+        return False
+
+
 def code(r, a, b):
     """which of the five possible answers a join/meet gave"""
     l = L()
+    if isinstance(r, Raised):
+        return "!"
     if r == a:
         return "a"
     if r == b:
@@ -86,9 +119,9 @@ Definition pairrow (p : zone * zone) : string :=
 
 
 def impl_row(a, cols):
-    return ("".join("T" if a.is_subseteq(b) else "F" for b in cols) + "|"
-            + "".join(code(a.join(b), a, b) for b in cols) + "|"
-            + "".join(code(a.meet(b), a, b) for b in cols))
+    return ("".join("T" if LE(a, b) else "F" for b in cols) + "|"
+            + "".join(code(J(a, b), a, b) for b in cols) + "|"
+            + "".join(code(M(a, b), a, b) for b in cols))
 
 
 def rand_elem(rng, depth, names):
@@ -129,13 +162,13 @@ def oracle(ctx, E, tag):
         a = E[i]
         if not le[i][i]:
             fail("reflexive", i)
-        if not bot.is_subseteq(a):
+        if not LE(bot, a):
             fail("bottom_least", i)
-        if not a.is_subseteq(top):
+        if not LE(a, top):
             fail("top_greatest", i)
-        if not (a.join(a) == a):
+        if not (J(a, a) == a):
             fail("join_idempotent", i)
-        if not (a.meet(a) == a):
+        if not (M(a, a) == a):
             fail("meet_idempotent", i)
     for i in range(n):
         a = E[i]
@@ -143,17 +176,17 @@ def oracle(ctx, E, tag):
             b = E[j]
             if le[i][j] and le[j][i] and not (a == b):
                 fail("antisymmetric", i, j)
-            jn, jm = a.join(b), b.join(a)
+            jn, jm = J(a, b), J(b, a)
             if not (jn == jm):
                 fail("join_commutative", i, j)
-            if not (a.is_subseteq(jn) and b.is_subseteq(jn)):
+            if not (LE(a, jn) and LE(b, jn)):
                 fail("join_upper_bound", i, j)
             if le[i][j] != (jn == b):
                 fail("join_consistent_with_order", i, j)
-            mt, mm = a.meet(b), b.meet(a)
+            mt, mm = M(a, b), M(b, a)
             if not (mt == mm):
                 fail("meet_commutative", i, j)
-            if not (mt.is_subseteq(a) and mt.is_subseteq(b)):
+            if not (LE(mt, a) and LE(mt, b)):
                 fail("meet_lower_bound", i, j)
             if le[i][j] != (mt == a):
                 fail("meet_consistent_with_order", i, j)
@@ -255,7 +288,7 @@ def run(ctx):
             ctx.obligation("coqc pairs file evaluates", False, log[-800:])
             continue
         for (a, b), line in zip(ch, vals[0]):
-            want = ("T" if a.is_subseteq(b) else "F") + code(a.join(b), a, b) + code(a.meet(b), a, b)
+            want = ("T" if LE(a, b) else "F") + code(J(a, b), a, b) + code(M(a, b), a, b)
             ctx.evaluations += 3
             ctx.hist("deep_pair_outcome", want)
             ctx.nt(("deep", show(a), show(b)))
@@ -323,19 +356,19 @@ def replay(data):
     c = els[2] if len(els) > 2 else None
     top, bot = l.Zone.top(), l.Zone.bottom()
     checks = {
-        "reflexive": lambda: a.is_subseteq(a),
-        "bottom_least": lambda: bot.is_subseteq(a),
-        "top_greatest": lambda: a.is_subseteq(top),
-        "join_idempotent": lambda: a.join(a) == a,
-        "meet_idempotent": lambda: a.meet(a) == a,
-        "antisymmetric": lambda: not (a.is_subseteq(b) and b.is_subseteq(a)) or a == b,
-        "join_commutative": lambda: a.join(b) == b.join(a),
-        "join_upper_bound": lambda: a.is_subseteq(a.join(b)) and b.is_subseteq(a.join(b)),
-        "join_consistent_with_order": lambda: a.is_subseteq(b) == (a.join(b) == b),
-        "meet_commutative": lambda: a.meet(b) == b.meet(a),
-        "meet_lower_bound": lambda: a.meet(b).is_subseteq(a) and a.meet(b).is_subseteq(b),
-        "meet_consistent_with_order": lambda: a.is_subseteq(b) == (a.meet(b) == a),
-        "transitive": lambda: not (a.is_subseteq(b) and b.is_subseteq(c)) or a.is_subseteq(c),
+        "reflexive": lambda: LE(a, a),
+        "bottom_least": lambda: LE(bot, a),
+        "top_greatest": lambda: LE(a, top),
+        "join_idempotent": lambda: J(a, a) == a,
+        "meet_idempotent": lambda: M(a, a) == a,
+        "antisymmetric": lambda: not (LE(a, b) and LE(b, a)) or a == b,
+        "join_commutative": lambda: J(a, b) == J(b, a),
+        "join_upper_bound": lambda: LE(a, J(a, b)) and LE(b, J(a, b)),
+        "join_consistent_with_order": lambda: LE(a, b) == (J(a, b) == b),
+        "meet_commutative": lambda: M(a, b) == M(b, a),
+        "meet_lower_bound": lambda: LE(M(a, b), a) and LE(M(a, b), b),
+        "meet_consistent_with_order": lambda: LE(a, b) == (M(a, b) == a),
+        "transitive": lambda: not (LE(a, b) and LE(b, c)) or LE(a, c),
     }
     holds = checks[law]()
     return (not holds), f"{law} on {inp['elements']}"
